@@ -202,21 +202,27 @@ def eku_pairs(body):
 
 
 def san_back(cfg, crate, rep):
+    """GeneralName -> SanType: the converter's result, specialised for every GeneralName variant it distinguishes,
+    constructs the SanType variant of the same kind (whatever the shape: `Ok(match ..)`, per-arm `.map(Variant)`,
+    helper functions)."""
+    from interp import specialise, variant_assignment, flatten_phi
     fn = "SanType::try_from_general"
     rep.fn(fn)
-    b = crate.body(fn)
-    # match name { GeneralName::X(..) => SanType::Y(..) }
+    I = Interp(crate)
+    out = I.run_fn(fn)
+    v = out["value"]
+    fails = [(c, x) for c, x, n_, f in I.fails if f == fn]
+    tested = common.guard_variants(v, "name")
+    for c, x in fails:
+        for a in F.atoms(c):
+            if a[0] == "variant" and a[1] == "name" and a[2] not in tested:
+                tested.append(a[2])
     got = {}
-    for n in common.hir_walk(b["hir"]):
-        if n["k"] == "Match":
-            for a in n["arms"]:
-                p = a["pat"]
-                while p["k"] in ("Ref", "Deref"):
-                    p = p["pat"]
-                d = p.get("ctor_of") or p.get("def") or ""
-                if "GeneralName::" in d:
-                    ys = [x.get("ctor_of") or x.get("callee") for x in common.hir_walk(a["body"]) if x["k"] == "Call" and "SanType::" in (x.get("callee") or "")]
-                    got[d.split("::")[-1]] = sorted({y.split("::")[-1] for y in ys})
+    for g in tested:
+        x = specialise(v, variant_assignment(v, "name", g))
+        vs = sorted(common.struct_variants(x, "SanType::"))
+        if vs:
+            got[g] = vs
     want = {"RFC822Name": ["Rfc822Name"], "DNSName": ["DnsName"], "URI": ["URI"], "IPAddress": ["IpAddress"], "OtherName": ["OtherName"]}
     rep.ob("C07.back", "%s|%s" % (cfg, fn), got == want, "GeneralName -> SanType arms are the inverse of the writer's tag table", expected=want, found=got)
 
